@@ -197,6 +197,8 @@ def py(e) -> str:
         return f"({py(e[2])} {e[1]} {py(e[3])})"
     if k == "sel":
         return f"({py(e[2])} if {py(e[1])} else {py(e[3])})"
+    if k == "devtest":                       # ("devtest", "sdse" | "sdns", pin)
+        return f"{e[1]}(d{e[2]})"
     if k == "read":
         return e[2].format(*[py(a) for a in e[3]])
     if k == "memget":
@@ -248,6 +250,8 @@ def cq(e, env) -> str:
         return f"(ECmp {CMPS[e[1]]} {cq(e[2], env)} {cq(e[3], env)})"
     if k == "sel":
         return f"(ESel {cq(e[1], env)} {cq(e[2], env)} {cq(e[3], env)})"
+    if k == "devtest":
+        return f"({'ESdse' if e[1] == 'sdse' else 'ESdns'} [{cq_num(0)}; {cq_num(e[2])}])"
     if k == "read":
         args = "[" + "; ".join(cq(a, env) for a in e[3]) + "]"
         return f"(ERead {e[1]} {args})"
